@@ -1222,14 +1222,17 @@ pub fn time_4(hour_value: &Value, minute_value: &Value, second_value: &Value, du
           let nanoseconds = (second.fract() * FeelNumber::nano()).trunc();
           match duration_value {
             Value::DaysAndTimeDuration(duration) => {
-              if let Some(feel_time) = FeelTime::new_hmso_opt(
-                hour.to_u8().unwrap(),
-                minute.to_u8().unwrap(),
-                seconds.to_u8().unwrap(),
-                nanoseconds.to_u64().unwrap(),
-                duration.as_seconds() as i32,
-              ) {
-                return Value::Time(feel_time);
+              // the hour magnitude of the offset is limited to at most 14, like in time literals
+              if let Some(offset) = i32::try_from(duration.as_seconds()).ok().filter(|offset| offset.unsigned_abs() < 15 * 3_600) {
+                if let Some(feel_time) = FeelTime::new_hmso_opt(
+                  hour.to_u8().unwrap(),
+                  minute.to_u8().unwrap(),
+                  seconds.to_u8().unwrap(),
+                  nanoseconds.to_u64().unwrap(),
+                  offset,
+                ) {
+                  return Value::Time(feel_time);
+                }
               }
             }
             Value::Null(_) => {
